@@ -4,15 +4,12 @@
 
 """Logic to convert a .reuse/dep5 file to a REUSE.toml file."""
 
-import re
 from typing import Any, Iterable, Optional, TypeVar, Union, cast
 
 import tomlkit
 from debian.copyright import Copyright, FilesParagraph, Header
 
 from .global_licensing import REUSE_TOML_VERSION
-
-_SINGLE_ASTERISK_PATTERN = re.compile(r"(?<!\*)\*(?!\*)")
 
 _T = TypeVar("_T")
 
@@ -58,7 +55,26 @@ def _convert_asterisk(path: str) -> str:
     """This solves a semantics difference. A singular asterisk is semantically
     identical to a double asterisk in REUSE.toml.
     """
-    return _SINGLE_ASTERISK_PATTERN.sub("**", path)
+    result = []
+    index = 0
+    while index < len(path):
+        char = path[index]
+        if char == "\\" and index + 1 < len(path):
+            # An escaped character (notably an escaped asterisk) is literal.
+            result.append(path[index : index + 2])
+            index += 2
+        elif char == "*":
+            end = index
+            while end < len(path) and path[end] == "*":
+                end += 1
+            # A single asterisk becomes a double asterisk. Longer runs are
+            # left alone.
+            result.append("**" if end - index == 1 else path[index:end])
+            index = end
+        else:
+            result.append(char)
+            index += 1
+    return "".join(result)
 
 
 def _paths_from_paragraph(paragraph: FilesParagraph) -> Union[str, list[str]]:
